@@ -470,7 +470,18 @@ func thoroughSelftest(ctx *Ctx, rule *Rule, p *engine.Prog, rep *engine.Report, 
 				ReportedBy []string `json:"reported_by"`
 			}
 			if json.Unmarshal(mb, &meta) == nil && meta.ReportedBy != nil {
-				expected = meta.ReportedBy
+				// a change written against this property is this property's to report; only when its own
+				// property does not report it (C06 is not claimed; some changes break another property's
+				// condition instead) the recorded reporters are held to it
+				own := false
+				for _, rb := range meta.ReportedBy {
+					if rb == prop {
+						own = true
+					}
+				}
+				if !own {
+					expected = meta.ReportedBy
+				}
 			}
 		}
 		mine := false
